@@ -124,3 +124,6 @@ def run(ctx):
 
     _sing.check_segments(ctx)  # (tools/wiring.py) the singular part of every dense operator: per-pair segments, offsets
     _sing.check_offsets(ctx)
+    from . import c05 as _c05
+
+    _c05.dispatch(ctx)  # (tools/wiring.py) Helmholtz boundary and potential factories hand a purely imaginary wavenumber to the same modified-Helmholtz kernel with the same omega
